@@ -575,4 +575,21 @@ theorem inv_run {c : Cfg} (io : Nat → Fault) (evs : List (Ev × Bool)) (st : S
 theorem inv_init (c : Cfg) (fs : FS) : Inv c (init fs) :=
   ⟨fun m hm => (by cases hm), fun _ m hm => (by cases hm), fun _ hh => (by simp [init] at hh)⟩
 
+theorem step_stopped (c : Cfg) (io : Nat → Fault) (st : St) (e : Ev) (s : Bool) (h : st.status ≠ .running) :
+    step c io st e s = st := by
+  unfold step; rw [if_pos h]
+
+theorem run_stopped (c : Cfg) (io : Nat → Fault) (st : St) (evs : List (Ev × Bool)) (h : st.status ≠ .running) :
+    run c io st evs = st := by
+  induction evs with
+  | nil => rfl
+  | cons e es ih => unfold run; rw [step_stopped c io st e.1 e.2 h]; exact ih
+
+theorem run_append (c : Cfg) (io : Nat → Fault) (st : St) (e1 e2 : List (Ev × Bool)) :
+    run c io st (e1 ++ e2) = run c io (run c io st e1) e2 := by
+  induction e1 generalizing st with
+  | nil => rfl
+  | cons e es ih => exact ih _
+
+
 end Nsq.Proofs.ToFile
